@@ -81,6 +81,27 @@ func runC07(r *mc.Run) {
 			e.Attributes = strings.Repeat("00", l)
 		})
 	}
+	// the identity's value carries bits OUTSIDE its mask (no report can then match: report AND mask never has them) and
+	// the report's raw field equals the identity's value octet for octet / in the masked part
+	for _, bit := range []int{2, 8 * 8, 8*13 + 7, 8*15 + 4, 8*10 + 3} {
+		bit := bit
+		idAttrs := flipHex(baseID.Attributes, bit)
+		rawID := make([]byte, 16)
+		for i := range rawID {
+			fmt.Sscanf(idAttrs[2*i:2*i+2], "%02x", &rawID[i])
+		}
+		add(fmt.Sprintf("attributes/identity-bit-outside-mask@%d,report=identity-value", bit), func(qe []byte) { copy(qe[48:64], rawID) }, func(e *world.EnclaveIdentity) { e.Attributes = idAttrs })
+		add(fmt.Sprintf("attributes/identity-bit-outside-mask@%d,report-has-the-bit-too", bit), func(qe []byte) { qe[48+bit/8] |= 1 << uint(bit%8) }, func(e *world.EnclaveIdentity) { e.Attributes = idAttrs })
+	}
+	for _, bit := range []int{16, 23, 24, 27} {
+		bit := bit
+		idMisc := flipHex(baseID.Miscselect, bit)
+		rawID := make([]byte, 4)
+		for i := range rawID {
+			fmt.Sscanf(idMisc[2*i:2*i+2], "%02x", &rawID[i])
+		}
+		add(fmt.Sprintf("miscselect/identity-bit-outside-mask@%d,report=identity-value", bit), func(qe []byte) { copy(qe[16:20], rawID) }, func(e *world.EnclaveIdentity) { e.Miscselect = idMisc })
+	}
 	// identity values of another length that are NUMERICALLY the masked report value: zero octets in front, or the
 	// leading octets (hidden by the mask) left out; the identity's value is a byte string of the field's size
 	add("attributes/value-front-padded-17", nil, func(e *world.EnclaveIdentity) { e.Attributes = "00" + e.Attributes })
